@@ -117,7 +117,7 @@ impl Database {
     pub uninterp spec fn snapshot(&self) -> Option<Seq<Def>>;
     /// registry invariant: an entry is keyed by the normalized name of its definition
     pub open spec fn reg_wf(&self) -> bool { forall|x: Seq<char>| #![trigger self.reg().dom().contains(x)] self.reg().dom().contains(x) ==> nkey(self.reg()[x].index_name) == x }
-    // self.indexes_at_begin.take()
+    // self.operations.take_index_definitions()  (Operations::indexes_at_begin.take())
     #[verifier::external_body]
     fn take_indexes_at_begin(&mut self) -> (r: Option<Vec<Def>>)
         ensures final(self).view() == old(self).view(), final(self).reg() == old(self).reg(),
@@ -213,7 +213,7 @@ ITEMS = {
     'rollback_transaction': dict(
         file=_F, path='impl Database::fn rollback_transaction', ret='res',
         rewrites=[('re', r'self\.lifecycle\.perform_rollback\(&mut self\.catalog, &mut self\.tables\)\?;', 'self.perform_rollback()?; let ghost reg0__ = self.reg(); let ghost snap__ = self.snapshot();', 1),
-                  ('re', r'self\.indexes_at_begin\.take\(\)', 'self.take_indexes_at_begin()', 1),
+                  ('re', r'self\.operations\.take_index_definitions\(\)', 'self.take_indexes_at_begin()', 1),
                   ('re', r'for index_name in self\.list_indexes\(\) \{', 'let names__ = self.list_indexes(); let mut li__: usize = 0; while li__ < names__.len() { let index_name = names__[li__].clone(); li__ = li__ + 1;', 1),
                   ('re', r'(?s)let kept = self\.get_index\(&index_name\)\.is_some_and\(\|current\| \{\s*definitions\.iter\(\)\.any\(\|d\| \{\s*d\.index_name == current\.index_name\s*&& d\.table_name == current\.table_name\s*&& d\.unique == current\.unique\s*&& d\.columns == current\.columns\s*\}\)\s*\}\);',
                    'let kept = self.is_kept(&index_name, &definitions);', 1),
@@ -275,7 +275,7 @@ TRUSTED = [
     'external_body tm_rollback_to_savepoint: TransactionManager::rollback_to_savepoint returns the changes recorded since the savepoint (proved on the real function in unit X-sp) and does not touch table contents',
     'external_body require_table / tbl_remove_row / tbl_insert (R12): get_table_mut(&name).ok_or_else(..)? followed by table.remove_row / table.insert, as operations on the bag of the named table. ASSUMED (proved on the real Table functions in unit K-table): remove_row removes exactly one row equal to the STORED FORM of the given row, insert adds its stored form; tbl_position_of / tbl_update_row = the position idiom (literal equality) and Table::update_row. Earlier wording: remove_row removes exactly one equal row or fails with RowNotFound (cf. unit K-table); insert adds exactly the given row (it was in this table before: already normalised)',
     'NOT under contract: that INSERT / UPDATE / DELETE executors RECORD every change (Database::insert_row does; UpdateExecutor / DeleteExecutor / REPLACE / ON DUPLICATE KEY UPDATE / FK cascades do since the two C14 fixes, shown by SQL reproductions only)',
-    'rollback_transaction: the registry of user-defined indexes as a map normalized name -> Def (IndexMetadata; Cols = Vec<IndexColumn> opaque) with external_body take_indexes_at_begin (`self.indexes_at_begin.take()`), list_indexes (exactly the registry keys), is_kept (the `get_index(..).is_some_and(|current| definitions.iter().any(|d| ..four field comparisons..))` statement, ASSUMED to decide "registered and its definition is one of those"), index_exists, drop_index, create_index (effects on the registry only; what an index is built from: unit I-resolve); nkey = normalize_index_name uninterpreted; precondition reg_wf (entries keyed by the normalized name of their definition). NOT under contract: that begin_transaction records exactly the current definitions and commit clears them',
+    'rollback_transaction: the registry of user-defined indexes as a map normalized name -> Def (IndexMetadata; Cols = Vec<IndexColumn> opaque) with external_body take_indexes_at_begin (`self.operations.take_index_definitions()`), list_indexes (exactly the registry keys), is_kept (the `get_index(..).is_some_and(|current| definitions.iter().any(|d| ..four field comparisons..))` statement, ASSUMED to decide "registered and its definition is one of those"), index_exists, drop_index, create_index (effects on the registry only; what an index is built from: unit I-resolve); nkey = normalize_index_name uninterpreted; precondition reg_wf (entries keyed by the normalized name of their definition). NOT under contract: that begin_transaction records exactly the current definitions and commit clears them',
     'external_body perform_rollback (TransactionManager::rollback_transaction: snapshot restore, not under contract here), indexed_tables (the list_indexes / get_index iterator chain), rebuild_indexes (unit I-resolve): by assumed contracts; undo_change\'s own calls to rebuild_indexes are dropped from the bag view (they do not change table contents)',
     'row ORDER inside a table after a rollback is not part of the contract (undo re-appends rows)',
 ]
